@@ -382,6 +382,10 @@ pub fn jobs(pn: u32, tier: Tier) -> Vec<Job> {
                 m.snap = false;
                 v.push(job("key-tree-large", random(key_cases(id, m), 1_500), Rule::default(), &[]));
             }
+            v.push(job("key-tree-look-churn-look", JobKind::Fixed { cases: key_period_cases(id, "tree", !q), stop_on_first: false }, Rule::any("two looks at one key with the slot it was found in turned over in between", &["sparse_observations", "reinsert_expired_key", "lookup_after_removal", "query_with_expired_copies"]), &[]));
+            v.push(job("key-tree-sparse-observations", random(key_sparse_cases(id, "tree"), n(400, 12_000)), Rule::any("a history of >=600 operations in which observations are >=100 operations apart", &["sparse_observations"]), &["sparse_observations"]));
+            v.push(job("key-tree-deep", JobKind::Fixed { cases: key_deep_cases(id, !q, true, false), stop_on_first: false }, Rule::any("a structure with a root-to-leaf path of >= 33 nodes", &["height_ge_33"]), &["height_ge_33"]));
+            v.push(job("key-tree-huge", random(key_huge_cases(id, "tree", [20, 12, 12, 12, 0, 14, 0, 1], 270_000, false), n(3, 60)), Rule::any("a structure of >=4096 entries built by a bulk fill", &["stored_ge_4096"]), &["stored_ge_4096"]));
             v.push(job("key-tree-enum", JobKind::Enumerate { spec: if q { key_enum(id, "tree", 3, 2, 3, false, false, 400_000) } else { key_enum(id, "tree", 4, 2, 3, false, false, 1_500_000) } }, rule.clone(), &[]));
             v.push(job("key-tree-enum-last-ticks", JobKind::Enumerate { spec: key_enum_edge(id, "tree", 3, 2, 2, false, false, 1_500_000) }, rule, &[]));
         }
@@ -403,6 +407,14 @@ pub fn jobs(pn: u32, tier: Tier) -> Vec<Job> {
                 v.push(job(&format!("{}-tree-enum-string", fam), JobKind::Enumerate { spec: ord_enum(id, fam, "tree", "string", if q { 5 } else { 7 }, true, &[], 2_000_000) }, rule.clone(), &[]));
                 v.push(job(&format!("{}-tree-enum-wide", fam), JobKind::Enumerate { spec: ord_enum(id, fam, "tree", "wide", if q { 5 } else { 7 }, true, &[], 2_000_000) }, rule.clone(), &[]));
             }
+            for (fam, vals) in [("map", vec!["u64", "string"]), ("set", vec!["u64", "bare"])] {
+                v.push(job(&format!("{}-tree-huge", fam), random(ord_huge_cases(id, fam, "tree", vals, [30, 30, 2, 1, 0, 2, 2, 8, 0, 0], 270_000), n(2, 40)), Rule::any("a structure of >=4096 entries built by a bulk fill", &["stored_ge_4096"]), &["stored_ge_4096"]));
+            }
+            v.push(job("key-tree-huge", random(key_huge_cases(id, "tree", [30, 8, 8, 8, 8, 16, 0, 1], 270_000, true), n(2, 40)), Rule::any("a structure of >=4096 entries built by a bulk fill", &["stored_ge_4096"]), &["stored_ge_4096"]));
+            for fam in ["map", "set"] {
+                v.push(job(&format!("{}-tree-deep", fam), JobKind::Fixed { cases: ord_deep_cases(id, fam, "u64", !q), stop_on_first: false }, Rule::any("a structure with a root-to-leaf path of >= 33 nodes", &["height_ge_33"]), &["height_ge_33"]));
+            }
+            v.push(job("key-tree-deep", JobKind::Fixed { cases: key_deep_cases(id, !q, true, true), stop_on_first: false }, Rule::any("a structure with a root-to-leaf path of >= 33 nodes", &["height_ge_33"]), &["height_ge_33"]));
             let krule = Rule::all("history with a lazy removal of a two-children node and of a black leaf", &["rm_two_children", "rm_black_leaf"]);
             v.push(job("key-tree-churn", random(key_cases(id, key_mix("tree", &[8, 16, 64], 12, 4, [40, 8, 8, 8, 8, 22, 1, 1], 0..=300, Some(0..=4))), n(6_000, 150_000)), krule.clone(), &["rm_two_children", "rm_black_leaf", "rm_red_leaf", "rm_one_child", "rotation_or_relink"]));
             v.push(job("key-tree-big", random(key_cases(id, key_mix("tree", &[300, 3000], 1500, 30, [50, 6, 6, 6, 6, 16, 0, 1], 300..=1500, Some(0..=600))), n(150, 4_000)), krule.clone(), &["height_ge_6", "arena_growth_x2"]));
@@ -421,6 +433,9 @@ pub fn jobs(pn: u32, tier: Tier) -> Vec<Job> {
             v.push(job("seg-long-histories-small-domains", random(seg_cases(id, SegMix { w: [50, 24, 6, 1, 2, 12, 8], len: 100..=600, thorough: !q, only_small: true }), n(300, 8_000)), rule.clone(), &["chunk_ge_17_entries"]));
             v.push(job("seg-insert-bursts", random(seg_cases(id, SegMix { w: [80, 3, 5, 0, 1, 12, 1], len: 200..=700, thorough: !q, only_small: false }), n(300, 8_000)), rule.clone(), &["query_ge_65_expired_copies"]));
             v.push(job("seg-hot-spots", random(seg_hot_cases(id, [14, 4, 2, 0, 1, 3, 1], 150..=700, false, None), n(400, 10_000)), rule.clone(), &["chunk_ge_65_entries"]));
+            v.push(job("seg-look-churn-look", JobKind::Fixed { cases: seg_period_cases(id, !q), stop_on_first: false }, Rule::any("two looks at one key with the slot it was found in turned over in between", &["sparse_observations", "reinsert_expired_key", "lookup_after_removal", "query_with_expired_copies"]), &[]));
+            v.push(job("seg-sparse-observations", random(seg_sparse_cases(id), n(300, 8_000)), Rule::any("a history of >=600 operations in which observations are >=100 operations apart", &["sparse_observations"]), &["sparse_observations"]));
+            v.push(job("seg-mass-expiry", random(seg_mass_expiry_cases(id), n(150, 4_000)), rule.clone(), &["chunk_ge_129_entries", "query_all_of_ge_128_list_expired"]));
             v.push(job("seg-17-enum", JobKind::Enumerate { spec: seg_enum(id, if q { 2 } else { 3 }, 2, false, 3_000_000) }, Rule::any("transition with an expired copy stored or a dropped iterator", &["query_with_expired_copies", "iterator_dropped_midway"]), &[]));
             v.push(job("seg-17-enum-last-ticks", JobKind::Enumerate { spec: seg_enum(id, 2, 2, true, 3_000_000) }, Rule::any("transition with an expired copy stored or a dropped iterator", &["query_with_expired_copies", "iterator_dropped_midway"]), &[]));
             v.push(job("seg-32-all-pairs-x-3-times", JobKind::Fixed { cases: seg_pair_cases(id, true), stop_on_first: false }, Rule::any("every (insert range, query range) pair over the 32-point domain at t in {exp-1, exp, exp+1}", &["query_t_eq_exp"]), &[]));
@@ -436,6 +451,10 @@ pub fn jobs(pn: u32, tier: Tier) -> Vec<Job> {
             v.push(job(&format!("{}-tree-big", fam), random(ord_cases(id, ord_mix(fam, "tree", &vals, &[300, 3000], w, 300..=1500, 3)), n(150, 4_000)), rule.clone(), &["height_ge_6"]));
             v.push(job(&format!("{}-tree-big-clear-big", fam), random(ord_clear_cases_sized(id, fam, "tree", vals.clone(), vec![300, 3000], 100..=500), n(100, 3_000)), rule.clone(), &[]));
             v.push(job(&format!("{}-tree-insertion-runs", fam), random(ord_runs_cases(id, fam, "tree", vals.clone(), [0, 6, 4, 0, 0, 0, 1, 0, 0, 0]), n(600, 15_000)), rule.clone(), &["run_ascending", "run_descending"]));
+            v.push(job(&format!("{}-tree-look-churn-look", fam), JobKind::Fixed { cases: ord_period_cases(id, fam, "tree", !q), stop_on_first: false }, Rule::any("two looks at one key with the slot it was found in turned over in between", &["sparse_observations", "reinsert_expired_key", "lookup_after_removal", "query_with_expired_copies"]), &[]));
+            v.push(job(&format!("{}-tree-sparse-observations", fam), random(ord_sparse_cases(id, fam, "tree", vals.clone()), n(400, 12_000)), Rule::any("a history of >=600 operations in which observations are >=100 operations apart", &["sparse_observations"]), &["sparse_observations"]));
+            v.push(job(&format!("{}-tree-deep", fam), JobKind::Fixed { cases: ord_deep_cases(id, fam, "u64", !q), stop_on_first: false }, Rule::any("a structure with a root-to-leaf path of >= 33 nodes", &["height_ge_33"]), &["height_ge_33"]));
+            v.push(job(&format!("{}-tree-huge", fam), random(ord_huge_cases(id, fam, "tree", vals.clone(), w, 270_000), n(3, 60)), Rule::any("a structure of >=4096 entries built by a bulk fill", &["stored_ge_4096"]), &["stored_ge_4096"]));
             if !q {
                 v.push(job(&format!("{}-tree-large", fam), random(ord_cases(id, ord_mix(fam, "tree", &vals, &[4096, 1_000_000], w, 0..=4000, 3)), 600), rule.clone(), &[]));
             }
@@ -450,6 +469,10 @@ pub fn jobs(pn: u32, tier: Tier) -> Vec<Job> {
             v.push(job("key-tree-medium", random(key_cases(id, key_mix("tree", &[16, 64], 30, 6, [34, 4, 4, 4, 34, 16, 1, 1], 0..=200, None)), n(4_000, 100_000)), rule.clone(), &req));
             v.push(job("key-tree-big", random(key_cases(id, key_mix("tree", &[300, 3000], 1500, 30, [50, 3, 3, 3, 24, 16, 0, 1], 300..=1500, None)), n(150, 4_000)), rule.clone(), &["height_ge_6", "get_depth_ge_3"]));
             v.push(job("key-tree-big-clear-big", random(key_clear_cases_sized(id, "tree", vec![300, 3000], 1500, 30, 100..=500), n(100, 3_000)), rule.clone(), &[]));
+            v.push(job("key-tree-look-churn-look", JobKind::Fixed { cases: key_period_cases(id, "tree", !q), stop_on_first: false }, Rule::any("two looks at one key with the slot it was found in turned over in between", &["sparse_observations", "reinsert_expired_key", "lookup_after_removal", "query_with_expired_copies"]), &[]));
+            v.push(job("key-tree-sparse-observations", random(key_sparse_cases(id, "tree"), n(600, 16_000)), Rule::any("a history of >=600 operations in which observations are >=100 operations apart", &["sparse_observations"]), &["sparse_observations"]));
+            v.push(job("key-tree-deep", JobKind::Fixed { cases: key_deep_cases(id, !q, true, false), stop_on_first: false }, Rule::any("a structure with a root-to-leaf path of >= 33 nodes", &["height_ge_33"]), &["height_ge_33"]));
+            v.push(job("key-tree-huge", random(key_huge_cases(id, "tree", [20, 4, 4, 4, 30, 14, 0, 1], 270_000, false), n(3, 60)), Rule::any("a structure of >=4096 entries built by a bulk fill", &["stored_ge_4096"]), &["stored_ge_4096"]));
             v.push(job("key-tree-enum", JobKind::Enumerate { spec: if q { key_enum(id, "tree", 3, 2, 3, true, false, 400_000) } else { key_enum(id, "tree", 4, 2, 3, true, false, 1_500_000) } }, rule.clone(), &[]));
             v.push(job("key-tree-enum-last-ticks", JobKind::Enumerate { spec: key_enum_edge(id, "tree", 3, 2, 2, true, false, 1_500_000) }, rule, &[]));
         }
@@ -460,6 +483,8 @@ pub fn jobs(pn: u32, tier: Tier) -> Vec<Job> {
             v.push(job("key-export-medium", random(key_cases(id, key_mix("tree", &[16, 64], 20, 5, [40, 6, 6, 6, 6, 20, 1, 1], 0..=200, Some(0..=24))), n(5_000, 120_000)), rule.clone(), &req));
             v.push(job("key-export-big", random(key_cases(id, key_mix("tree", &[300, 3000], 1500, 30, [50, 5, 5, 5, 5, 16, 0, 1], 300..=1500, Some(0..=1600))), n(150, 4_000)), rule.clone(), &["height_ge_6", "export_after_free"]));
             v.push(job("key-export-big-clear-big", random(key_clear_cases_sized(id, "tree", vec![300, 3000], 1500, 30, 100..=500), n(100, 3_000)), rule.clone(), &[]));
+            v.push(job("key-export-deep", JobKind::Fixed { cases: key_deep_cases(id, !q, false, true), stop_on_first: false }, Rule::any("a structure with a root-to-leaf path of >= 33 nodes", &["height_ge_33"]), &["height_ge_33"]));
+            v.push(job("key-export-huge", random(key_huge_cases(id, "both", [30, 6, 6, 6, 6, 18, 0, 1], 270_000, true), n(3, 60)), Rule::any("a structure of >=4096 entries built by a bulk fill", &["stored_ge_4096"]), &["stored_ge_4096"]));
             v.push(job("key-export-enum", JobKind::Enumerate { spec: if q { key_enum(id, "tree", 3, 2, 3, true, true, 400_000) } else { key_enum(id, "tree", 4, 2, 3, true, true, 1_500_000) } }, rule.clone(), &[]));
             v.push(job("key-export-enum-last-ticks", JobKind::Enumerate { spec: key_enum_edge(id, "tree", 3, 2, 2, true, true, 1_500_000) }, rule, &[]));
         }
@@ -472,6 +497,10 @@ pub fn jobs(pn: u32, tier: Tier) -> Vec<Job> {
                 v.push(job(&format!("{}-tree-handles-big", fam), random(ord_cases(id, ord_mix(fam, "tree", &vals, &[300, 3000], [40, 14, 2, 0, 0, 20, 8, 12, 0, 0], 300..=1500, 3)), n(120, 3_000)), rule.clone(), &["height_ge_6"]));
                 v.push(job(&format!("{}-tree-insertion-runs", fam), random(ord_runs_cases(id, fam, "tree", vals.clone(), [0, 2, 0, 0, 0, 6, 2, 2, 0, 0]), n(600, 15_000)), rule.clone(), &["run_ascending", "run_descending"]));
                 v.push(job(&format!("{}-tree-big-clear-big", fam), random(ord_clear_cases_sized(id, fam, "tree", vals.clone(), vec![300, 3000], 100..=500), n(80, 2_000)), rule.clone(), &[]));
+                v.push(job(&format!("{}-tree-look-churn-look", fam), JobKind::Fixed { cases: ord_period_cases(id, fam, "tree", !q), stop_on_first: false }, Rule::any("two looks at one key with the slot it was found in turned over in between", &["sparse_observations", "reinsert_expired_key", "lookup_after_removal", "query_with_expired_copies"]), &[]));
+                v.push(job(&format!("{}-tree-sparse-observations", fam), random(ord_sparse_cases(id, fam, "tree", vec!["u64", "string"]), n(300, 8_000)), Rule::any("a history of >=600 operations in which observations are >=100 operations apart", &["sparse_observations"]), &["sparse_observations"]));
+                v.push(job(&format!("{}-tree-deep", fam), JobKind::Fixed { cases: ord_deep_cases(id, fam, "u64", !q), stop_on_first: false }, Rule::any("a structure with a root-to-leaf path of >= 33 nodes", &["height_ge_33"]), &["height_ge_33"]));
+                v.push(job(&format!("{}-tree-huge", fam), random(ord_huge_cases(id, fam, "tree", vec!["u64", "string"], [30, 14, 2, 0, 0, 20, 8, 12, 0, 0], 270_000), n(2, 30)), Rule::any("a structure of >=4096 entries built by a bulk fill", &["stored_ge_4096"]), &["stored_ge_4096"]));
                 v.push(job(&format!("{}-tree-enum", fam), JobKind::Enumerate { spec: ord_enum(id, fam, "tree", "u64", if q { 6 } else { 8 }, true, &[O_HSWEEP], 2_000_000) }, rule.clone(), &[]));
             }
         }
@@ -488,6 +517,8 @@ pub fn jobs(pn: u32, tier: Tier) -> Vec<Job> {
             if !q {
                 v.push(job("set-tree-steps-large", random(ord_cases(id, ord_mix("set", "tree", &["u64", "bare"], &[4096], [60, 20, 0, 0, 0, 0, 0, 4, 10, 1], 0..=3000, 3)), 400), rule.clone(), &[]));
             }
+            v.push(job("set-tree-deep", JobKind::Fixed { cases: ord_deep_cases(id, "set", "u64", !q), stop_on_first: false }, Rule::any("a structure with a root-to-leaf path of >= 33 nodes", &["height_ge_33"]), &["height_ge_33"]));
+            v.push(job("set-tree-huge", random(ord_huge_cases(id, "set", "tree", vec!["u64", "bare"], [30, 18, 0, 0, 0, 0, 0, 6, 20, 1], 270_000), n(3, 50)), Rule::any("a structure of >=4096 entries built by a bulk fill", &["stored_ge_4096"]), &["stored_ge_4096"]));
             v.push(job("set-tree-enum", JobKind::Enumerate { spec: ord_enum(id, "set", "tree", "u64", if q { 6 } else { 8 }, true, &[O_STEPALL, O_WALK], 2_000_000) }, rule, &[]));
         }
         10 => {
@@ -503,6 +534,7 @@ pub fn jobs(pn: u32, tier: Tier) -> Vec<Job> {
             v.push(job("seg", random(seg_cases(id, SegMix { w: [30, 30, 12, 2, 4, 10, 10], len: 0..=60, thorough: !q, only_small: false }), n(8_000, 200_000)), rule.clone(), &[]));
             v.push(job("seg-long", random(seg_cases(id, SegMix { w: [50, 20, 8, 1, 3, 12, 6], len: 100..=600, thorough: !q, only_small: false }), n(300, 8_000)), rule.clone(), &[]));
             v.push(job("seg-hot-spots", random(seg_hot_cases(id, [14, 4, 2, 0, 1, 3, 1], 150..=700, false, None), n(300, 8_000)), rule.clone(), &[]));
+            v.push(job("seg-mass-expiry", random(seg_mass_expiry_cases(id), n(100, 3_000)), rule.clone(), &[]));
             v.push(job("seg-17-enum", JobKind::Enumerate { spec: seg_enum(id, 2, 2, false, 3_000_000) }, rule.clone(), &[]));
             v.push(job("map-tree-insertion-runs", random(ord_runs_cases(id, "map", "tree", vec!["u64", "string"], [0, 4, 2, 0, 0, 2, 1, 2, 0, 0]), n(400, 10_000)), rule.clone(), &[]));
             v.push(job("set-tree-insertion-runs", random(ord_runs_cases(id, "set", "tree", vec!["u64", "bare"], [0, 4, 2, 0, 0, 2, 1, 2, 4, 1]), n(400, 10_000)), rule.clone(), &[]));
@@ -514,6 +546,15 @@ pub fn jobs(pn: u32, tier: Tier) -> Vec<Job> {
                 v.push(job(&format!("key-{}-big-clear-big", coll), random(key_clear_cases_sized(id, coll, vec![300, 3000], 1500, 30, 100..=500), n(60, 2_000)), rule.clone(), &[]));
                 v.push(job(&format!("map-{}-big-clear-big", coll), random(ord_clear_cases_sized(id, "map", coll, vec!["u64", "string"], vec![300, 3000], 100..=500), n(60, 2_000)), rule.clone(), &[]));
                 v.push(job(&format!("set-{}-big-clear-big", coll), random(ord_clear_cases_sized(id, "set", coll, vec!["u64", "string"], vec![300, 3000], 100..=500), n(60, 2_000)), rule.clone(), &[]));
+            }
+            v.push(job("key-tree-deep", JobKind::Fixed { cases: key_deep_cases(id, !q, true, true), stop_on_first: false }, Rule::any("a structure with a root-to-leaf path of >= 33 nodes", &["height_ge_33"]), &["height_ge_33"]));
+            for fam in ["map", "set"] {
+                v.push(job(&format!("{}-tree-deep", fam), JobKind::Fixed { cases: ord_deep_cases(id, fam, "u64", !q), stop_on_first: false }, Rule::any("a structure with a root-to-leaf path of >= 33 nodes", &["height_ge_33"]), &["height_ge_33"]));
+            }
+            for coll in ["tree", "list"] {
+                v.push(job(&format!("key-{}-huge", coll), random(key_huge_cases(id, coll, [30, 6, 6, 6, 8, 16, 0, 1], 270_000, true), n(2, 40)), Rule::any("a structure of >=4096 entries built by a bulk fill", &["stored_ge_4096"]), &["stored_ge_4096"]));
+                v.push(job(&format!("map-{}-huge", coll), random(ord_huge_cases(id, "map", coll, vec!["u64", "string"], mw, 270_000), n(2, 40)), Rule::any("a structure of >=4096 entries built by a bulk fill", &["stored_ge_4096"]), &["stored_ge_4096"]));
+                v.push(job(&format!("set-{}-huge", coll), random(ord_huge_cases(id, "set", coll, vec!["u64", "string"], ow, 270_000), n(2, 40)), Rule::any("a structure of >=4096 entries built by a bulk fill", &["stored_ge_4096"]), &["stored_ge_4096"]));
             }
             v.push(job("seg-domain-table", JobKind::Fixed { cases: seg_domain_table(id, !q), stop_on_first: false }, Rule::any("domain with non-power-of-two length or negative lo", &["domain_non_pow2", "domain_negative_lo"]), &[]));
             v.push(job("map-tree-enum", JobKind::Enumerate { spec: ord_enum(id, "map", "tree", "u64", if q { 5 } else { 7 }, true, &[O_HSWEEP], 2_000_000) }, rule.clone(), &[]));
@@ -542,6 +583,14 @@ pub fn jobs(pn: u32, tier: Tier) -> Vec<Job> {
             for fam in ["map", "set"] {
                 v.push(job(&format!("{}-tree-big-clear-big", fam), random(ord_clear_cases_sized(id, fam, "tree", vec!["u64"], vec![300, 3000], 100..=500), n(100, 3_000)), Rule::any("clear after arena growth", &["clear_after_growth"]), &[]));
             }
+            for fam in ["map", "set"] {
+                v.push(job(&format!("{}-tree-deep", fam), JobKind::Fixed { cases: ord_deep_cases(id, fam, "u64", !q), stop_on_first: false }, Rule::any("a structure with a root-to-leaf path of >= 33 nodes", &["height_ge_33"]), &["height_ge_33"]));
+            }
+            v.push(job("key-tree-deep", JobKind::Fixed { cases: key_deep_cases(id, !q, true, true), stop_on_first: false }, Rule::any("a structure with a root-to-leaf path of >= 33 nodes", &["height_ge_33"]), &["height_ge_33"]));
+            for fam in ["map", "set"] {
+                v.push(job(&format!("{}-tree-huge", fam), random(ord_huge_cases(id, fam, "tree", vec!["u64"], w, 270_000), n(2, 40)), Rule::any("a structure of >=4096 entries built by a bulk fill", &["stored_ge_4096"]), &["stored_ge_4096"]));
+            }
+            v.push(job("key-tree-huge", random(key_huge_cases(id, "tree", [40, 6, 6, 6, 6, 20, 0, 0], 270_000, true), n(2, 40)), Rule::any("a structure of >=4096 entries built by a bulk fill", &["stored_ge_4096"]), &["stored_ge_4096"]));
             v.push(job("key-tree-enum", JobKind::Enumerate { spec: key_enum(id, "tree", 3, 2, if q { 2 } else { 3 }, true, true, 1_500_000) }, Rule::any("transition with a lazy removal", &["q_lazy_removal"]), &[]));
         }
         12 => {
@@ -560,6 +609,12 @@ pub fn jobs(pn: u32, tier: Tier) -> Vec<Job> {
                 v.push(job(&format!("map-{}-big-prefix", coll), random(ord_clear_cases_sized(id, "map", coll, vec!["u64", "string"], vec![300, 3000], 150..=600), n(120, 3_000)), rule.clone(), &[]));
                 v.push(job(&format!("set-{}-big-prefix", coll), random(ord_clear_cases_sized(id, "set", coll, vec!["u64", "string"], vec![300, 3000], 150..=600), n(120, 3_000)), rule.clone(), &[]));
             }
+            for coll in ["tree", "list"] {
+                let hr = Rule::all("a structure of >=4096 entries cleared, then >=5 twin observations", &["stored_ge_4096", "twin_obs_ge_5"]);
+                v.push(job(&format!("key-{}-huge", coll), random(key_huge_cases(id, coll, [30, 10, 10, 10, 14, 16, 0, 2], 140_000, true), n(2, 40)), hr.clone(), &["stored_ge_4096"]));
+                v.push(job(&format!("map-{}-huge", coll), random(ord_huge_cases(id, "map", coll, vec!["u64", "string"], [30, 14, 20, 4, 0, 10, 6, 4, 0, 0], 140_000), n(2, 40)), hr.clone(), &["stored_ge_4096"]));
+                v.push(job(&format!("set-{}-huge", coll), random(ord_huge_cases(id, "set", coll, vec!["u64", "string"], [30, 14, 20, 4, 0, 10, 6, 4, 6, 1], 140_000), n(2, 40)), hr.clone(), &["stored_ge_4096"]));
+            }
         }
         13 => {
             let krule = Rule::all("KeyExpList history in which both an operation with an expired entry stored (purge) and one without (shortcut skip) occur", &["list_op_expired_stored", "list_op_no_expired_stored"]);
@@ -576,6 +631,15 @@ pub fn jobs(pn: u32, tier: Tier) -> Vec<Job> {
             v.push(job("set-list", random(ord_cases(id, ord_mix("set", "list", &["u64", "string", "wide"], &[4, 8, 16, 64], sw, 0..=120, 1)), n(8_000, 200_000)), srule.clone(), &["step_single_entry", "step_inner", "full_walk"]));
             v.push(job("map-list-big", random(ord_cases(id, ord_mix("map", "list", &["u64", "string"], &[300, 3000], mw, 300..=1500, 3)), n(100, 3_000)), Rule::default(), &[]));
             v.push(job("set-list-big", random(ord_cases(id, ord_mix("set", "list", &["u64", "string"], &[300, 3000], sw, 300..=1500, 3)), n(100, 3_000)), Rule::default(), &[]));
+            v.push(job("key-list-look-churn-look", JobKind::Fixed { cases: key_period_cases(id, "list", !q), stop_on_first: false }, Rule::any("two looks at one key with the slot it was found in turned over in between", &["sparse_observations", "reinsert_expired_key", "lookup_after_removal", "query_with_expired_copies"]), &[]));
+            v.push(job("map-list-look-churn-look", JobKind::Fixed { cases: ord_period_cases(id, "map", "list", !q), stop_on_first: false }, Rule::any("two looks at one key with the slot it was found in turned over in between", &["sparse_observations", "reinsert_expired_key", "lookup_after_removal", "query_with_expired_copies"]), &[]));
+            v.push(job("set-list-look-churn-look", JobKind::Fixed { cases: ord_period_cases(id, "set", "list", !q), stop_on_first: false }, Rule::any("two looks at one key with the slot it was found in turned over in between", &["sparse_observations", "reinsert_expired_key", "lookup_after_removal", "query_with_expired_copies"]), &[]));
+            v.push(job("key-list-sparse-observations", random(key_sparse_cases(id, "list"), n(300, 8_000)), Rule::any("a history of >=600 operations in which observations are >=100 operations apart", &["sparse_observations"]), &["sparse_observations"]));
+            v.push(job("map-list-sparse-observations", random(ord_sparse_cases(id, "map", "list", vec!["u64", "string"]), n(200, 5_000)), Rule::any("a history of >=600 operations in which observations are >=100 operations apart", &["sparse_observations"]), &["sparse_observations"]));
+            v.push(job("set-list-sparse-observations", random(ord_sparse_cases(id, "set", "list", vec!["u64", "string"]), n(200, 5_000)), Rule::any("a history of >=600 operations in which observations are >=100 operations apart", &["sparse_observations"]), &["sparse_observations"]));
+            v.push(job("key-list-huge", random(key_huge_cases(id, "list", [30, 6, 6, 6, 8, 16, 0, 1], 140_000, true), n(2, 40)), Rule::any("a structure of >=4096 entries built by a bulk fill", &["stored_ge_4096"]), &["stored_ge_4096"]));
+            v.push(job("map-list-huge", random(ord_huge_cases(id, "map", "list", vec!["u64", "string"], mw, 140_000), n(2, 40)), Rule::any("a structure of >=4096 entries built by a bulk fill", &["stored_ge_4096"]), &["stored_ge_4096"]));
+            v.push(job("set-list-huge", random(ord_huge_cases(id, "set", "list", vec!["u64", "string"], sw, 140_000), n(2, 40)), Rule::any("a structure of >=4096 entries built by a bulk fill", &["stored_ge_4096"]), &["stored_ge_4096"]));
             v.push(job("map-list-enum", JobKind::Enumerate { spec: ord_enum(id, "map", "list", "u64", if q { 5 } else { 7 }, true, &[O_SWEEP, O_HSWEEP], 100_000) }, mrule, &[]));
             v.push(job("set-list-enum", JobKind::Enumerate { spec: ord_enum(id, "set", "list", "u64", if q { 5 } else { 7 }, true, &[O_SWEEP, O_HSWEEP, O_STEPALL, O_WALK], 100_000) }, srule, &[]));
         }
@@ -589,6 +653,12 @@ pub fn jobs(pn: u32, tier: Tier) -> Vec<Job> {
             // the masks must be a pure function of the two ranges: every ordered pair of consecutive
             // inserts on one tree (tiling / copy-count oracle on both), then longer insert sequences
             v.push(job("seg-32-all-consecutive-insert-pairs", JobKind::Fixed { cases: seg_insert_pair_cases(id), stop_on_first: false }, Rule::default(), &["ins_ge_5_copies"]));
+            // the same complete table on 32-bucket domains of other bucket widths (up to 2^58 points per
+            // bucket) and positions: the masks are functions of the bucket ranges alone
+            for (k, (lo, len, rt)) in PAIR_DOMAINS.iter().enumerate() {
+                v.push(job(&format!("seg-all-pairs-{}-lo{}-len{}", rt, lo, len), JobKind::Fixed { cases: seg_pair_cases_on(id, false, *lo, *len, rt, (k % 2) as i64), stop_on_first: false }, Rule::default(), &["ins_ge_5_copies"]));
+            }
+            v.push(job("seg-wide-insert-sequences", random(seg_cases(id, SegMix { w: [40, 30, 0, 2, 2, 10, 10], len: 0..=40, thorough: !q, only_small: false }), n(2_000, 50_000)), Rule::any("a history with >=2 inserts before a query", &["query_ge2_answers_multi_place", "ins_ge_5_copies"]), &[]));
             v.push(job("seg-32-insert-sequences", random(seg_cases(id, SegMix { w: [40, 30, 0, 2, 2, 10, 10], len: 0..=40, thorough: false, only_small: true }), n(4_000, 100_000)), Rule::any("a history with >=2 inserts before a query", &["query_ge2_answers_multi_place", "ins_ge_5_copies"]), &[]));
             v.push(job("seg-32-hot-spots-long", random(seg_hot_cases(id, [14, 5, 1, 0, 1, 3, 2], 150..=700, true, None), n(400, 10_000)), Rule::any("a history with >=2 inserts before a query", &["query_ge2_answers_multi_place", "ins_ge_5_copies"]), &["chunk_ge_65_entries"]));
         }
@@ -599,6 +669,7 @@ pub fn jobs(pn: u32, tier: Tier) -> Vec<Job> {
             v.push(job("seg-long-histories", random(seg_cases(id, SegMix { w: [50, 14, 8, 1, 8, 12, 4], len: 100..=600, thorough: !q, only_small: false }), n(400, 10_000)), Rule::all("a fully consumed query issued while >=1 expired copy was physically stored", &["c16_nontrivial"]), &["chunk_ge_17_entries"]));
             v.push(job("seg-insert-bursts", random(seg_cases(id, SegMix { w: [80, 3, 5, 0, 2, 12, 1], len: 200..=700, thorough: !q, only_small: false }), n(300, 8_000)), Rule::all("a fully consumed query issued while >=1 expired copy was physically stored", &["c16_nontrivial"]), &["query_ge_65_expired_copies"]));
             v.push(job("seg-hot-spots", random(seg_hot_cases(id, [14, 3, 2, 0, 2, 3, 1], 150..=700, false, None), n(400, 10_000)), Rule::all("a fully consumed query issued while >=1 expired copy was physically stored", &["c16_nontrivial"]), &["chunk_ge_65_entries"]));
+            v.push(job("seg-mass-expiry", random(seg_mass_expiry_cases(id), n(150, 4_000)), Rule::all("a fully consumed query issued while >=1 expired copy was physically stored", &["c16_nontrivial"]), &["chunk_ge_129_entries", "query_all_of_ge_128_list_expired"]));
             v.push(job("seg-17-enum", JobKind::Enumerate { spec: seg_enum(id, if q { 2 } else { 3 }, 2, false, 3_000_000) }, Rule::all("a fully consumed query issued while >=1 expired copy was physically stored", &["c16_nontrivial"]), &[]));
             v.push(job("seg-17-enum-last-ticks", JobKind::Enumerate { spec: seg_enum(id, 2, 2, true, 3_000_000) }, Rule::all("a fully consumed query issued while >=1 expired copy was physically stored", &["c16_nontrivial"]), &[]));
         }
@@ -609,6 +680,8 @@ pub fn jobs(pn: u32, tier: Tier) -> Vec<Job> {
                 v.push(job(&format!("{}-tree-held-handles", fam), random(ord_cases(id, ord_mix(fam, "tree", &vals, &[16, 64, 300, 2000], w, 0..=150, 1)), n(8_000, 200_000)), rule.clone(), &["held_ge_2_across_insert"]));
                 v.push(job(&format!("{}-tree-held-handles-big", fam), random(ord_cases(id, ord_mix(fam, "tree", &vals, &[1000, 5000], [70, 2, 4, 0, 0, 4, 2, 1, 0, 0], 200..=700, 1)), n(100, 3_000)), rule.clone(), &["height_ge_6"]));
                 v.push(job(&format!("{}-tree-insertion-runs", fam), random(ord_runs_cases(id, fam, "tree", vals.clone(), [2, 0, 1, 0, 0, 1, 0, 0, 0, 0]), n(600, 15_000)), rule.clone(), &["run_ascending", "run_descending"]));
+                v.push(job(&format!("{}-tree-deep", fam), JobKind::Fixed { cases: ord_deep_cases(id, fam, "u64", !q), stop_on_first: false }, Rule::any("a structure with a root-to-leaf path of >= 33 nodes", &["height_ge_33"]), &["height_ge_33"]));
+                v.push(job(&format!("{}-tree-huge", fam), random(ord_huge_cases(id, fam, "tree", vec!["u64", "string"], [60, 6, 10, 0, 0, 6, 2, 2, 0, 0], 270_000), n(3, 50)), Rule::any("a structure of >=4096 entries built by a bulk fill", &["stored_ge_4096"]), &["stored_ge_4096"]));
                 v.push(job(&format!("{}-tree-enum", fam), JobKind::Enumerate { spec: ord_enum(id, fam, "tree", "u64", if q { 6 } else { 8 }, false, &[], 2_000_000) }, rule.clone(), &[]));
             }
         }
@@ -637,6 +710,8 @@ pub fn jobs(pn: u32, tier: Tier) -> Vec<Job> {
             let rule = Rule::all("export of a tree/list physically holding >=12 entries (the size at which the original over-allocation exceeded the bound)", &["export_cap_ge_12"]);
             v.push(job("export-size-ladder", JobKind::Fixed { cases: export_ladder(id, !q), stop_on_first: true }, rule.clone(), &["export_cap_ge_100"]));
             v.push(job("export-random-tree", random(key_cases(id, key_mix("tree", &[16, 64, 400], 40, 6, [60, 4, 4, 4, 4, 16, 1, 0], 0..=600, Some(0..=30))), n(3_000, 80_000)), rule.clone(), &[]));
+            v.push(job("export-deep", JobKind::Fixed { cases: key_deep_cases(id, !q, true, true), stop_on_first: false }, Rule::any("a structure with a root-to-leaf path of >= 33 nodes", &["height_ge_33"]), &["height_ge_33"]));
+            v.push(job("export-huge", random(key_huge_cases(id, "tree", [40, 4, 4, 4, 4, 16, 0, 0], 270_000, true), n(3, 60)), Rule::any("a structure of >=4096 entries built by a bulk fill", &["stored_ge_4096"]), &["stored_ge_4096"]));
             v.push(job("export-random-list", random(key_cases(id, key_mix("list", &[16, 64, 400], 40, 6, [60, 4, 4, 4, 4, 16, 1, 0], 0..=600, Some(0..=30))), n(1_500, 40_000)), rule, &[]));
         }
         20 => {
@@ -650,6 +725,13 @@ pub fn jobs(pn: u32, tier: Tier) -> Vec<Job> {
             v.push(job("key-tree-big", random(key_cases(id, key_mix("tree", &[300, 3000], 1500, 30, [50, 6, 6, 6, 8, 16, 0, 1], 300..=1500, None)), n(120, 3_000)), rule.clone(), &["height_ge_6"]));
             v.push(job("key-tree-big-clear-big", random(key_clear_cases_sized(id, "tree", vec![300, 3000], 1500, 30, 100..=500), n(80, 2_000)), rule.clone(), &[]));
             v.push(job("key-list-big", random(key_cases(id, key_mix("list", &[300, 3000], 1500, 30, [50, 6, 6, 6, 8, 16, 0, 1], 300..=1500, None)), n(80, 2_000)), rule.clone(), &[]));
+            v.push(job("key-tree-look-churn-look", JobKind::Fixed { cases: key_period_cases(id, "tree", !q), stop_on_first: false }, Rule::any("two looks at one key with the slot it was found in turned over in between", &["sparse_observations", "reinsert_expired_key", "lookup_after_removal", "query_with_expired_copies"]), &[]));
+            v.push(job("key-list-look-churn-look", JobKind::Fixed { cases: key_period_cases(id, "list", !q), stop_on_first: false }, Rule::any("two looks at one key with the slot it was found in turned over in between", &["sparse_observations", "reinsert_expired_key", "lookup_after_removal", "query_with_expired_copies"]), &[]));
+            v.push(job("key-tree-sparse-observations", random(key_sparse_cases(id, "tree"), n(300, 8_000)), Rule::any("a history of >=600 operations in which observations are >=100 operations apart", &["sparse_observations"]), &["sparse_observations"]));
+            v.push(job("key-list-sparse-observations", random(key_sparse_cases(id, "list"), n(200, 5_000)), Rule::any("a history of >=600 operations in which observations are >=100 operations apart", &["sparse_observations"]), &["sparse_observations"]));
+            v.push(job("key-tree-deep", JobKind::Fixed { cases: key_deep_cases(id, !q, true, false), stop_on_first: false }, Rule::any("a structure with a root-to-leaf path of >= 33 nodes", &["height_ge_33"]), &["height_ge_33"]));
+            v.push(job("key-tree-huge", random(key_huge_cases(id, "tree", [30, 6, 6, 6, 8, 16, 0, 1], 140_000, true), n(2, 30)), Rule::any("a structure of >=4096 entries built by a bulk fill", &["stored_ge_4096"]), &["stored_ge_4096"]));
+            v.push(job("key-list-huge", random(key_huge_cases(id, "list", [30, 6, 6, 6, 8, 16, 0, 1], 70_000, true), n(1, 20)), Rule::any("a structure of >=4096 entries built by a bulk fill", &["stored_ge_4096"]), &["stored_ge_4096"]));
             v.push(job("key-tree-enum", JobKind::Enumerate { spec: key_enum(id, "tree", 3, 2, if q { 3 } else { 3 }, true, false, 1_500_000) }, rule.clone(), &[]));
             v.push(job("key-list-enum", JobKind::Enumerate { spec: key_enum(id, "list", 3, 2, 3, true, false, 1_500_000) }, rule.clone(), &[]));
             v.push(job("key-tree-enum-last-ticks", JobKind::Enumerate { spec: key_enum_edge(id, "tree", 3, 2, 2, true, false, 1_500_000) }, rule.clone(), &[]));
@@ -688,20 +770,37 @@ pub fn ranges_32() -> Vec<(i64, i64)> {
 /// One case per insert range: the insert followed by all 528 query ranges (C15), optionally
 /// repeated at t = exp-1, exp, exp+1 (C03).
 fn seg_pair_cases(prop: &str, three_times: bool) -> Vec<Case> {
+    seg_pair_cases_on(prop, three_times, 0, 32, "i32", 0)
+}
+
+/// 32-bucket domains of other bucket widths and positions: one point per bucket up to 2^58 points
+pub const PAIR_DOMAINS: &[(i64, i64, &str)] = &[
+    (-16, 32, "i32"),
+    (0, 1024, "i32"),
+    (i32::MIN as i64, 1i64 << 32, "i32"),
+    (0, 1i64 << 32, "u32"),
+    (0, 1i64 << 33, "i64"),
+    (-(1i64 << 35), 1i64 << 36, "i64"),
+    (-(1i64 << 61), 1i64 << 62, "i64"),
+];
+
+/// `off`: 0 = ranges from the first point of bucket a to the first point of bucket b, 1 = to the last
+/// point of bucket b
+fn seg_pair_cases_on(prop: &str, three_times: bool, lo: i64, len: i64, rt: &str, off: i64) -> Vec<Case> {
     let rs = ranges_32();
     let mut cases = Vec::new();
     for (a, b) in &rs {
         let mut c = Case::new(prop, "seg");
-        c.set("lo", 0).set("len", 32).set("rtype", "i32");
+        c.set("lo", lo).set("len", len).set("rtype", rt);
         // exp = clock + 1  (d = 2)
-        c.ops.push(RawOp::new(S_INS, &[*a, 0, *b, 0, 2]));
+        c.ops.push(RawOp::new(S_INS, &[*a, 0, *b, off, 2]));
         let rounds = if three_times { 3 } else { 1 };
         for round in 0..rounds {
             if round > 0 {
                 c.ops.push(RawOp::new(S_ADV, &[1]));
             }
             for (x, y) in &rs {
-                c.ops.push(RawOp::new(S_QUERY, &[*x, 0, *y, 0, 0]));
+                c.ops.push(RawOp::new(S_QUERY, &[*x, 0, *y, off, 0]));
             }
         }
         cases.push(c);
@@ -794,6 +893,196 @@ fn seg_domain_table(prop: &str, thorough: bool) -> Vec<Case> {
             if lo >= 0 && lo + len - 1 <= 65535 {
                 push(lo, len, "u16");
             }
+        }
+    }
+    v
+}
+
+/// Structures deep enough for a root-to-leaf path of >= 33 nodes (a red-black tree needs >= 196 606
+/// entries for that, and a monotone fill reaches it at exactly that size): plain ascending /
+/// descending fills, and monotone fills of a gap between sparse keys, which hang such a spine below
+/// an inner node so that a neighbour step from its end has to climb >= 33 links.
+fn ord_deep_cases(prop: &str, family: &str, val: &str, thorough: bool) -> Vec<Case> {
+    let mut sizes = vec![270_000i64, 530_000];
+    if thorough {
+        sizes.push(1_050_000);
+    }
+    let mut v = Vec::new();
+    let gap = 1_200_000i64;
+    for &n in &sizes {
+        for shape in 0..4 {
+            let mut c = Case::new(prop, family);
+            c.set("coll", "tree").set("val", val).set("cap", if shape % 2 == 0 { 8 } else { 0 }).set("U", 2_000_000).set("snap", 0).set("dense", 0);
+            match shape {
+                0 => c.ops.push(RawOp::new(O_BULK, &[n, 0])),
+                1 => c.ops.push(RawOp::new(O_BULK, &[n, 1])),
+                2 => {
+                    // ascending fill of 2^18 keys that leaves a wide gap after the first quarter, then
+                    // an ascending run into that gap: its spine hangs below an inner node
+                    c.ops.push(RawOp::new(O_BULK, &[65_535, 0, 0, 1]));
+                    c.ops.push(RawOp::new(O_BULK, &[196_609, 0, 65_535 + gap, 1]));
+                    c.ops.push(RawOp::new(O_BULK, &[n.min(gap - 10), 0, 65_535, 1]));
+                }
+                _ => {
+                    // the mirror image
+                    c.ops.push(RawOp::new(O_BULK, &[65_535, 1, 196_609 + gap, 1]));
+                    c.ops.push(RawOp::new(O_BULK, &[196_609, 1, 0, 1]));
+                    c.ops.push(RawOp::new(O_BULK, &[n.min(gap - 10), 1, 196_609 + gap - n.min(gap - 10), 1]));
+                }
+            }
+            // a few removals at both ends and in the middle, then the end-of-case battery
+            for sel in [0i64, n / 2, n - 1, 1, n / 3] {
+                c.ops.push(RawOp::new(O_DEL, &[sel, 1]));
+            }
+            c.ops.push(RawOp::new(O_HDEL, &[n / 4]));
+            v.push(c);
+        }
+    }
+    v
+}
+
+fn key_deep_cases(prop: &str, thorough: bool, descending: bool, export: bool) -> Vec<Case> {
+    let mut sizes = vec![270_000i64, 1_050_000];
+    if thorough {
+        sizes.push(2_100_000);
+    }
+    let mut v = Vec::new();
+    for &n in &sizes {
+        for order in 0..(if descending { 2 } else { 1 }) {
+            for pattern in [0i64, 4, 5, 2] {
+                let mut c = Case::new(prop, "key");
+                c.set("coll", "tree").set("cap", if pattern == 0 { 8 } else { 0 }).set("U", 8).set("snap", 0);
+                c.ops.push(RawOp::new(K_BULK, &[n, order, pattern]));
+                c.ops.push(RawOp::new(K_ADV, &[1]));
+                if pattern == 5 {
+                    for pr in [0i64, n / 2 + 1, n + 1] {
+                        c.ops.push(RawOp::new(K_FLE, &[pr]));
+                    }
+                }
+                if export {
+                    c.ops.push(RawOp::new(K_EXPORT, &[0]));
+                }
+                v.push(c);
+            }
+        }
+    }
+    v
+}
+
+/// "Look, churn c times, look again" for every c up to a bound: a look at one key, then c cycles that
+/// free and re-occupy the slot it was found in (no looks in between), then the same look again and a
+/// small battery. State that a look leaves behind (last-hit caches, generation stamps, counters that
+/// wrap at 2^8) meets its slot again after every possible number of slot turnovers up to 2*cmax;
+/// the thorough tier adds the cycle counts around 2^15 and 2^16.
+fn period_counts(thorough: bool) -> Vec<i64> {
+    let mut v: Vec<i64> = (0..=300).collect();
+    if thorough {
+        v.extend(301..=700);
+        v.extend([32_767, 32_768, 32_769, 65_535, 65_536, 65_537]);
+    }
+    v
+}
+
+fn key_period_cases(prop: &str, coll: &str, thorough: bool) -> Vec<Case> {
+    let mut v = Vec::new();
+    // (look kind, argument that aims at key 0, second argument)
+    let looks: [(u8, i64, i64); 5] = [(K_GET, 1, 0), (K_FLE, 1, 0), (K_FL, 2, 0), (K_FLEBY, 1, 0), (K_FLEBY, 1, 2)];
+    for c in period_counts(thorough) {
+        for (li, (lk, la, lb)) in looks.iter().enumerate() {
+            if prop == "C06" && *lk != K_GET {
+                continue;
+            }
+            if (prop == "C01") && *lk == K_GET {
+                continue;
+            }
+            for variant in 0..2 {
+                if c > 700 && (variant != 0 || li > 1) {
+                    continue;
+                }
+                let mut k = Case::new(prop, "key");
+                k.set("coll", coll).set("cap", 8).set("U", if variant == 0 { 2 } else { 3 }).set("snap", 0);
+                if variant == 1 {
+                    // a persistent entry above: the churned entry is not the root
+                    k.ops.push(RawOp::new(K_INS, &[1, 500_000]));
+                }
+                k.ops.push(RawOp::new(K_INS, &[0, 1]));
+                k.ops.push(RawOp::new(*lk, &[*la, *lb]));
+                for _ in 0..c {
+                    k.ops.push(RawOp::new(K_ADV, &[1]));
+                    // variant 0: another key takes over the freed slot; variant 1: the key itself comes back
+                    k.ops.push(RawOp::new(K_INS, &[if variant == 0 { 1 } else { 0 }, 1]));
+                }
+                k.ops.push(RawOp::new(*lk, &[*la, *lb]));
+                k.ops.push(RawOp::new(K_ADV, &[1]));
+                k.ops.push(RawOp::new(*lk, &[*la, *lb]));
+                for pr in 0..=3 {
+                    k.ops.push(RawOp::new(*lk, &[pr, *lb]));
+                }
+                v.push(k);
+            }
+        }
+    }
+    v
+}
+
+fn ord_period_cases(prop: &str, family: &str, coll: &str, thorough: bool) -> Vec<Case> {
+    let mut v = Vec::new();
+    let looks: [(u8, i64, i64); 3] = [(O_GET, 1, 0), (O_HREAD, 1, 0), (O_HREAD, 1, 2)];
+    for c in period_counts(thorough) {
+        for (li, (lk, la, lb)) in looks.iter().enumerate() {
+            for variant in 0..2 {
+                if c > 700 && (variant != 0 || li > 0) {
+                    continue;
+                }
+                let mut k = Case::new(prop, family);
+                k.set("coll", coll).set("val", "u64").set("cap", 8).set("U", if variant == 0 { 2 } else { 3 }).set("snap", 0).set("dense", 0);
+                if variant == 1 {
+                    k.ops.push(RawOp::new(O_INS, &[1]));
+                }
+                k.ops.push(RawOp::new(O_INS, &[0]));
+                k.ops.push(RawOp::new(*lk, &[*la, *lb]));
+                k.ops.push(RawOp::new(O_DEL, &[0, 1]));
+                for _ in 0..c {
+                    // variant 0: another key moves into the freed slot and out again; variant 1: with a
+                    // second entry present
+                    let other = if variant == 0 { 1 } else { 2 };
+                    k.ops.push(RawOp::new(O_INS, &[other]));
+                    k.ops.push(RawOp::new(O_DEL, &[other, 1]));
+                }
+                k.ops.push(RawOp::new(O_INS, &[if variant == 0 { 1 } else { 2 }]));
+                k.ops.push(RawOp::new(*lk, &[*la, *lb]));
+                for pr in 0..=4 {
+                    k.ops.push(RawOp::new(*lk, &[pr, *lb]));
+                }
+                v.push(k);
+            }
+        }
+    }
+    v
+}
+
+fn seg_period_cases(prop: &str, thorough: bool) -> Vec<Case> {
+    let mut v = Vec::new();
+    for c in period_counts(thorough) {
+        for variant in 0..2 {
+            if c > 700 && variant != 0 {
+                continue;
+            }
+            let mut k = Case::new(prop, "seg");
+            k.set("lo", 0).set("len", 32).set("rtype", "i32");
+            let (a, b) = if variant == 0 { (5, 5) } else { (3, 17) };
+            // alive at this tick only
+            k.ops.push(RawOp::new(S_INS, &[a, 0, b, 0, 1]));
+            k.ops.push(RawOp::new(S_QUERY, &[a, 0, b, 0, 0]));
+            for _ in 0..c {
+                k.ops.push(RawOp::new(S_ADV, &[1]));
+                k.ops.push(RawOp::new(S_INS, &[a, 0, b, 0, 1]));
+            }
+            k.ops.push(RawOp::new(S_QUERY, &[a, 0, b, 0, 0]));
+            k.ops.push(RawOp::new(S_ADV, &[1]));
+            k.ops.push(RawOp::new(S_QUERY, &[a, 0, b, 0, 0]));
+            k.ops.push(RawOp::new(S_QUERYALL, &[]));
+            v.push(k);
         }
     }
     v
